@@ -3,6 +3,7 @@ import Cppcms.C02.SafetyHttp
 import Cppcms.C02.Pool
 import Cppcms.C02.Actions
 import Cppcms.C02.Closing
+import Cppcms.C02.Forwarder
 /-!
 # C02 — property theorems
 
@@ -61,6 +62,22 @@ theorem record_sizes_exact (hb : Bytes) :
     Gen.fcgiRecSizeCached (parseFcgiHdr hb).contentLength (parseFcgiHdr hb).paddingLength =
       (parseFcgiHdr hb).contentLength + (parseFcgiHdr hb).paddingLength :=
   recSize_parse hb
+
+/-- `connection::cgi_forwarder` (requests matching `forwarding.rules`): the buffer the request body is relayed through is
+sized from `CONTENT_LENGTH` by the regenerated expression `Gen.fwdPostBuffer`; for every positive `CONTENT_LENGTH`
+(however absurd) it is between 1 and 8192 bytes and not larger than what is left, so `post_.resize` cannot throw inside
+the completion handler.  Breaks when the `min` becomes a `max`. -/
+theorem forwarder_buffer_bounded (cl : Int) (h : 0 < cl) :
+    ∃ s, fwdStart cl = some s ∧ 1 ≤ s.buf ∧ s.buf ≤ 8192 ∧ (s.buf : Int) ≤ s.remaining :=
+  Cppcms.C02.forwarder_buffer_bounded cl h
+
+/-- the relay loop (`write_post` / `on_post_data_written`) never resizes beyond 8 KiB and never takes `front()` of an
+empty vector, for any lengths the reads deliver -/
+theorem forwarder_relay_safe (cl : Int) (h : 0 < cl) (lens : List Nat) :
+    ∃ s s', fwdStart cl = some s ∧ fwdRelay s lens = some s' ∧ s'.buf ≤ 8192 := by
+  obtain ⟨s, h1, h2, h3, _⟩ := Cppcms.C02.forwarder_buffer_bounded cl h
+  obtain ⟨s', h4, h5⟩ := Cppcms.C02.forwarder_relay_safe lens s ⟨h2, h3⟩
+  exact ⟨s, s', h1, h4, h5⟩
 
 /-- `string_pool` (the storage behind every request's variables): for every sequence of allocations of any
 sizes and `clear()`s — the requests of a kept-alive connection — no allocation is handed bytes outside its
